@@ -1,4 +1,6 @@
 """C10 — history-based check (see tools/histprop.py, coq/Monitors.v mon_C10)."""
+import re
+
 import common
 import histprop
 from common import from_replay, to_replay  # noqa: F401
@@ -11,26 +13,83 @@ CHECK_WITHOUT_PROOF = True
 SHRINK_GUARD = 0      # which of the booleans evaluated with the verdict certifies the theorem's hypotheses
 TRUSTED = common.TRUSTED_COMMON
 ASSUMPTIONS = common.ASSUME_COMMON
-RULE = 'random API histories (1-3 threads, 4-14 calls, API-call-atomic) over a random universe of single locks, poisonable wrappers and collections of every kind / container / nesting depth <= 2 sharing leaves, with random holds of other threads present from the start; vocabulary adds panics with a live guard, panicking closures, is_poisoned, clear_poison; observation = is_poisoned of every wrapper after every call + Ok/Err seen at every wrapper position; non-trivial = history contains a panic and a Poisonable; distinct = scenario text; plus interleaved (Level B) programs of 2-4 threads over poisonable roots, most of which panic with a live guard or inside a closure while others wait for the same locks: the Ok / Err of every acquisition must agree with the panics that unwound exclusive holds before it was granted (BMonitors.v mon_C10b)'
+RULE = 'random API histories (1-3 threads, 4-14 calls, API-call-atomic) over a random universe of single locks, poisonable wrappers and collections of every kind / container / nesting depth <= 2 sharing leaves, with random holds of other threads present from the start; vocabulary adds panics with a live guard, panicking closures, is_poisoned, clear_poison; observation = is_poisoned of every wrapper after every call + Ok/Err seen at every wrapper position; non-trivial = history contains a panic and a Poisonable; distinct = scenario text; plus interleaved (Level B) programs of 2-4 threads over poisonable roots, most of which panic with a live guard or inside a closure while others wait for the same locks: the Ok / Err of every acquisition must agree with the panics that unwound exclusive holds before it was granted (BMonitors.v mon_C10b); plus, exhaustively, probes inside one hold: wrappers around a Mutex, an RwLock, a boxed and an owned collection x every acquisition flavour x {clean, already poisoned} x {no clear_poison, clear_poison inside the hold, clear_poison after it} x {panic inside the hold or not}, judged by the property clause Monitors.c10_probe_ok'
 EXHAUSTIVE = {"quick": False, "thorough": False}
-classify = histprop.classify
-signature = histprop.signature
+
+
+class QCase:
+    """a probe inside one hold (harness/src/psn.rs): clear_poison while the hold is live, then possibly a panic — sequences
+    outside the model's history vocabulary, judged on the implementation by the property's own clause (Monitors.c10_probe_ok)"""
+    def __init__(self, sid, root, flavour, init, clear, panic):
+        self.sid, self.root, self.flavour, self.init, self.clear, self.panic = sid, root, flavour, init, clear, panic
+        self.hist, self.meta, self.sched = [], {}, None
+
+    def text(self):
+        return f"pq {self.sid} {self.root} {self.flavour} {int(self.init)} {self.clear} {int(self.panic)}"
+
+
+EXCL = ["scoped_lock", "scoped_try_lock", "lock", "try_lock"]
+SHARED = ["scoped_read", "scoped_try_read", "read", "try_read"]
+
+
+def probe_cases():
+    out = []
+    for root, flavours in (("pm", EXCL), ("pr", EXCL + SHARED), ("pc", EXCL), ("po", EXCL + SHARED)):
+        for fl in flavours:
+            for init in (False, True):
+                for clear in (0, 1, 2):
+                    for panic in (False, True):
+                        out.append(QCase(f"c10q_{len(out)}", root, fl, init, clear, panic))
+    return out
 
 
 def gen(tier, rng):
-    return histprop.gen(PID, tier, rng)
+    return histprop.gen(PID, tier, rng) + probe_cases()
 
 
 def coq_expr(s, r):
+    if isinstance(s, QCase):
+        m = re.match(r"ok (true|false) (true|false)$", r.get("qobs", "") or "")
+        if not m:
+            return "mkv true true false false"          # the probe waited, was refused or panicked outside user code
+        b = lambda x: "true" if x else "false"
+        ok = f"c10_probe_ok {b(s.flavour in EXCL)} {b(s.init)} {s.clear} {b(s.panic)} {m.group(1)} {m.group(2)}"
+        return f"mkv true true ({ok}) ({ok})"
     return histprop.coq_expr(PID, s, r)
 
 
 def nontrivial(s, r):
+    if isinstance(s, QCase):
+        return s.panic or s.init
     return histprop.nontrivial(PID, s, r)
+
+
+def classify(s, r):
+    if isinstance(s, QCase):
+        return ["family=probe-inside-one-hold", f"root={s.root}", f"flavour={s.flavour}", f"clear={s.clear}", f"panic={s.panic}"]
+    return histprop.classify(s, r)
+
+
+def signature(s):
+    return s.text() if isinstance(s, QCase) else histprop.signature(s)
+
+
+def to_replay(s):
+    return {"case": s.text()} if isinstance(s, QCase) else common.to_replay(s)
+
+
+def from_replay(j):
+    sc = j.get("scenario") or j
+    if "case" in sc:
+        t = sc["case"].split()
+        return [QCase(t[1], t[2], t[3], t[4] == "1", int(t[5]), t[6] == "1")]
+    return common.from_replay(j)
 
 
 def known_class(s, r):
     """F3: a panicking closure of a scoped call on something that contains a Poisonable below its root"""
+    if isinstance(s, QCase):
+        return None
     defs = dict(s.defs)
     if s.sched:
         return None
